@@ -104,8 +104,48 @@ func describeFaults(pl *Plan) string {
 }
 
 // runFaulted runs one faulted scenario on an existing site and judges it.
+// hasTruncate: the plan loses the tail of the `cat-file --batch` stream while
+// the process reports success. Nothing has "failed", so a run may either
+// notice (fewer objects than requested: non-zero, no report) or not be
+// affected (the cut was after the last requested object: identical report);
+// exit 0 with a different report is never legal.
+func hasTruncate(pl *Plan) bool {
+	for _, pp := range pl.Peers {
+		if pp == nil {
+			continue
+		}
+		for _, f := range pp.Faults {
+			if f.Kind == "truncate" {
+				return true
+			}
+		}
+	}
+	return false
+}
+
 func runFaulted(c *Ctx, sc *Scenario, site *Site, base []byte, engineB bool) *Violation {
 	why := describeFaults(&sc.Plan)
+	if hasTruncate(&sc.Plan) && !engineB {
+		res := RunA(c.T, c.H, sc, site)
+		c.Stats.AddResult(res)
+		c.Stats.Evaluations++
+		why += " [lost output, exit 0]"
+		switch {
+		case res.Panic != "":
+			return &Violation{"C10/panic", why + ": " + firstLines(res.Panic, 8)}
+		case res.Hang:
+			return &Violation{"C10/hang", why}
+		case res.Failed && len(res.Stdout) > 0:
+			return &Violation{"C10/report-on-failure", fmt.Sprintf("%s: non-zero exit but %d bytes on stdout", why, len(res.Stdout))}
+		case !res.Failed && !bytes.Equal(res.Stdout, base):
+			sc.Log = res.Events
+			return &Violation{"C10/report-differs", fmt.Sprintf("%s: exit 0 but the report differs from the fault-free run:\n%s\n--- fault-free:\n%s", why, firstBytes(res.Stdout, 500), firstBytes(base, 500))}
+		}
+		if res.Failed {
+			c.Stats.Nontrivial[sc.Hash()] = true
+		}
+		return nil
+	}
 	var res *Result
 	if engineB {
 		res = RunB(sc, site, BOpts{})
@@ -259,12 +299,19 @@ func checkC10(c *Ctx, rt *rapid.T) {
 			k := g.PickStr(peerKinds, "faultpeer")
 			pl.Peers[k].Faults = append(pl.Peers[k].Faults, genFault(g, k))
 		}
+		if nf == 1 && g.Rare(1, 10, "lostoutput") {
+			// instead of a failure: the tail of the cat-file --batch stream is lost, exit status 0
+			for _, k := range peerKinds {
+				pl.Peers[k].Faults = nil
+			}
+			pl.Peers["batch"].Faults = []Fault{{Kind: "truncate", AtByte: g.Int(0, 2500, "lostat"), StdinLines: -1}}
+		}
 		if g.Chance(1, 5, "stall") {
 			k := g.PickStr(peerKinds, "stallpeer")
 			pl.Peers[k].Faults = append(pl.Peers[k].Faults, Fault{Kind: "stall", AtByte: g.Int(0, 300, "stallat"), StallNS: int64(g.Int(1, 5000, "stallms")) * 1e6, StdinLines: -1})
 		}
 		sc := &Scenario{Format: 1, Property: "C10", Engine: "A", World: w, Inv: inv, Plan: pl,
-			Params: c10Params{Mode: "fault", RefOpts: refopts, EngineB: nf == 1 && os.Getenv("VERIF_GITSIZER_BIN") != "" && g.Chance(1, 6, "engineB")}}
+			Params: c10Params{Mode: "fault", RefOpts: refopts, EngineB: nf == 1 && !hasTruncate(&pl) && os.Getenv("VERIF_GITSIZER_BIN") != "" && g.Chance(1, 6, "engineB")}}
 		if v := judgeC10(c, sc); v != nil {
 			c.Fail(rt, sc, v.Class, v.Detail)
 		}
